@@ -234,6 +234,8 @@ type Explorer struct {
 	PreemptBound *int
 	// MaxPointOccurrence, when > 0, only preempts at the first so many occurrences of each site.
 	MaxPointOccurrence int
+	// PointFilter, when set, restricts the preemption sweep to the point occurrences it accepts.
+	PointFilter func(occurrence string) bool
 
 	execs       int64
 	stopped     bool
@@ -614,6 +616,9 @@ func (e *Explorer) preemptionSweep() {
 			if n, err := strconv.Atoi(c[k+1:]); err == nil && n >= e.MaxPointOccurrence {
 				continue
 			}
+		}
+		if e.PointFilter != nil && !e.PointFilter(c) {
+			continue
 		}
 		if ci%e.n != e.shard {
 			continue
